@@ -908,7 +908,30 @@ impl Typer {
             );
             return self.error_expr(None);
         };
-        if let Some(method_ty) = type_env.lookup_inherent_method(&receiver_ty, &member_ident) {
+        // `Type::m(recv, ..)` names the type only by its constructor. When an impl of a single
+        // instantiation (`impl Cell[int32] { fn m }`) also defines `m`, the method has to be
+        // resolved the way `recv.m(..)` resolves it — through the receiver's full type: the impl
+        // of exactly that instantiation first, the generic impl as the fallback — otherwise the
+        // two call forms of one method on one receiver run different code.
+        let mut receiver_ty = receiver_ty;
+        let mut method_lookup = type_env.lookup_inherent_method(&receiver_ty, &member_ident);
+        let mut receiver_arg_tast = None;
+        if let Some(first_arg) = args.first()
+            && type_env
+                .trait_env
+                .instantiation_impl_defines(&resolved_type_name, &member_ident)
+        {
+            let arg_tast = self.infer_expr(genv, local_env, diagnostics, *first_arg);
+            let arg_ty = arg_tast.get_ty();
+            if super::util::try_constr_name(&arg_ty).as_deref() == Some(resolved_type_name.as_str())
+                && let Some(method_ty) = type_env.lookup_inherent_method(&arg_ty, &member_ident)
+            {
+                receiver_ty = arg_ty;
+                method_lookup = Some(method_ty);
+            }
+            receiver_arg_tast = Some(arg_tast);
+        }
+        if let Some(method_ty) = method_lookup {
             let inst_method_ty = self.inst_ty(&method_ty);
             if let tast::Ty::TFunc { params, ret_ty } = inst_method_ty.clone() {
                 if params.len() != args.len() {
@@ -926,6 +949,15 @@ impl Typer {
 
                 let mut args_tast = Vec::with_capacity(args.len());
                 for (arg, expected_ty) in args.iter().zip(params.iter()) {
+                    if let Some(arg_tast) = receiver_arg_tast.take() {
+                        // the receiver was inferred above; tie it to the method's first parameter
+                        self.push_constraint(Constraint::TypeEqual(
+                            arg_tast.get_ty(),
+                            expected_ty.clone(),
+                        ));
+                        args_tast.push(arg_tast);
+                        continue;
+                    }
                     let arg_tast = self.check_expr(genv, local_env, diagnostics, *arg, expected_ty);
                     args_tast.push(arg_tast);
                 }
